@@ -35,11 +35,29 @@ CONFLICT = {("all", "all"), ("all", "mov"), ("all", "sib"), ("all", "swap"), ("a
             ("sib", "swap"), ("sib", "nobase"), ("swap", "swap"), ("nobase", "nobase")}
 
 
+def covers(a, b):
+    """flag a is an umbrella flag whose documented expansion contains a flag of b's dimension"""
+    da, db = FLAGS[a][1], FLAGS[b][1]
+    if a == "-s":
+        return db == "mov" and b != "-s"
+    return (da == "all" and db != "all") or (da == "sib" and db in ("swap", "nobase"))
+
+
 def flag_sets(tier):
     out = [()] + [(f,) for f in FLAGS]
     for a, b in itertools.combinations(FLAGS, 2):
         da, db = FLAGS[a][1], FLAGS[b][1]
         if (da, db) in CONFLICT or (db, da) in CONFLICT:
+            # two flags on one option dimension: only the orders whose meaning does not depend on how "is equivalent to" is
+            # read - the umbrella flag first and the specific one after it (the specific one wins), or two flags of the same
+            # rank (the later one wins)
+            if covers(a, b):
+                out.append((a, b))
+            elif covers(b, a):
+                out.append((b, a))
+            elif da == db and "-s" not in (a, b):
+                out.append((a, b))
+                out.append((b, a))
             continue
         out.append((a, b))
     return out
